@@ -29,7 +29,7 @@ finally:
 ok = demo_clean == 0 and demo_mut.returncode != 0 and '251 passed' in t and ' failed' not in t and ' error' not in t
 results = {}
 for cid in checks:
-    r = subprocess.run([os.path.join(HERE, 'tools/try_mutant.sh'), patch, cid, 'quick'],
+    r = subprocess.run([os.path.join(HERE, 'tools/try_mutant_wt.sh'), wt, patch, cid, 'quick'],
                        capture_output=True, text=True)
     lines = r.stdout.strip().splitlines()
     results[cid] = {'exit': lines[-1] if lines else '', 'first': [l[:260] for l in lines[:3]]}
@@ -50,7 +50,7 @@ meta = {
         'all_confirmed': ok,
     },
     'ran': ['git apply patch.diff in scratch worktree; pytest (BASELINE command); demo.py with '
-            'and without the patch; tools/try_mutant.sh patch.diff <check> quick on /repo'],
+            'and without the patch; tools/try_mutant_wt.sh <worktree> patch.diff <check> quick (USIM_REPO = the patched scratch worktree)'],
     'checks': results,
     'repo_head': subprocess.run(['git', '-C', '/repo', 'rev-parse', '--short', 'HEAD'],
                                 capture_output=True, text=True).stdout.strip(),
